@@ -106,7 +106,9 @@ def run_spec(spec, cfg, tier, seed):
     # per-spec budget in the quick tier, 15x in the thorough tier; a fast query is unaffected by a generous budget
     tmo = spec.timeout_ms * (15 if tier == "thorough" else 3)
     z3guard.HARD_S = max(90.0, 2.5 * tmo / 1000.0)
-    z3guard.DEADLINE = time.time() + max(180.0, 1.5 * tmo / 1000.0)
+    # total solver budget of the job: quick 1.5 x the per-query budget (at least 180 s); thorough jobs legitimately issue thousands of
+    # queries (16-QAM links, 256-point constellations): 6 x the per-query budget, capped below the parent's hard limit per job
+    z3guard.DEADLINE = time.time() + (max(180.0, 1.5 * tmo / 1000.0) if tier != "thorough" else min(9000.0, 6.0 * tmo / 1000.0))
     res = H.run_symbolic(spec, cfg, max_paths=spec.max_paths * (8 if tier == "thorough" else 1), solver_timeout_ms=tmo, crosscheck=spec.crosscheck * (4 if tier == "thorough" else 1), seed=seed)
     # fallback search: an obligation the engine could not decide, or a solver model that does not replay, is searched natively
     need = [r for r in res if r.verdict in ("undecided", "error") or (r.verdict == "refuted" and not r.replay_confirmed)]
